@@ -13,7 +13,7 @@ use selene_lib::{Checker, CheckerConfig};
 const CODES: &[&str] = &["incorrect_standard_library_use", "deprecated", "must_use"];
 
 /// (root name, statement using it, what it normally triggers)
-const USES: &[(&str, &str, &str)] = &[
+pub const USES: &[(&str, &str, &str)] = &[
     ("math", "local _u = math.floor(\"x\")", "type"),
     ("math", "local _u = math.nope", "no-field"),
     ("math", "math.nope()", "no-field-call"),
@@ -63,7 +63,7 @@ const USES: &[(&str, &str, &str)] = &[
 ];
 
 /// binding constructs: (name, text before the inside use, text after it) — `{R}` is the bound name
-const BINDINGS: &[(&str, &str, &str)] = &[
+pub const BINDINGS: &[(&str, &str, &str)] = &[
     ("local", "do\n  local {R} = {}\n  ", "\nend\n"),
     ("local-multi", "do\n  local _a, {R} = 1, {}\n  ", "\nend\n"),
     ("param", "local function _f({R})\n  ", "\nend\n"),
@@ -77,6 +77,14 @@ const BINDINGS: &[(&str, &str, &str)] = &[
     ("repeat-until", "repeat\n  local {R} = {}\n  ", "\nuntil true\n"),
     ("if-branch", "if t then\n  local {R} = {}\n  ", "\nend\n"),
     ("else-branch", "if t then\nelse\n  local {R} = {}\n  ", "\nend\n"),
+    // loops whose header expressions contain a function literal: blocks are entered between the header and the body
+    ("generic-for-header-closure", "for _k, {R} in pairs(f(function(n) return n end)) do\n  ", "\nend\n"),
+    ("generic-for-first-header-closure", "for {R} in f(function() local _q = 1 end, function(...) return ... end) do\n  ", "\nend\n"),
+    ("numeric-for-header-closure", "for {R} = 1, (function() return 2 end)() do\n  ", "\nend\n"),
+    ("numeric-for-step-closure", "for {R} = 1, 2, f(function() do end end) do\n  ", "\nend\n"),
+    ("while-condition-closure", "while f(function() end) do\n  local {R} = {}\n  ", "\nend\n"),
+    ("param-of-closure-argument", "f(function({R})\n  ", "\nend)\n"),
+    ("local-after-nested-function", "do\n  local function _h() local _i = 1 end\n  local {R} = {}\n  ", "\nend\n"),
 ];
 
 fn diags_of(checker: &Checker<toml::value::Value>, src: &str) -> Option<Vec<String>> {
